@@ -31,6 +31,10 @@ intEnumValues = {
 }
 
 
+# intc and bytec address a block entry with a one-byte immediate
+MAX_BLOCK_ENTRIES = 256
+
+
 def extractIntValue(op: TealOp) -> Union[str, int]:
     """Extract the constant value being loaded by a TealOp whose op is Op.int.
 
@@ -159,12 +163,13 @@ def createConstantBlocks(ops: List[TealComponent]) -> List[TealComponent]:
         val
         for i, val in enumerate(sortedInts)
         if intFreqs[val] > 1 and (i < 4 or isinstance(val, str) or val >= 2**7)
-    ]
+    ][:MAX_BLOCK_ENTRIES]
+
+    # the byte constants that go into the block, most frequent first
+    blockBytes = [b for b in sortedBytes if byteFreqs[b] > 1][:MAX_BLOCK_ENTRIES]
 
     byteBlock = [
-        ("0x" + b.hex()) if type(b) is bytes else cast(str, b)
-        for b in sortedBytes
-        if byteFreqs[b] > 1
+        ("0x" + b.hex()) if type(b) is bytes else cast(str, b) for b in blockBytes
     ]
 
     if len(intBlock) != 0:
@@ -214,7 +219,7 @@ def createConstantBlocks(ops: List[TealComponent]) -> List[TealComponent]:
                         "Expect a byte-like constant opcode, get {}".format(op)
                     )
 
-                if byteFreqs[byteValue] == 1:
+                if byteValue not in blockBytes:
                     encodedValue = (
                         ("0x" + byteValue.hex())
                         if type(byteValue) is bytes
@@ -225,7 +230,7 @@ def createConstantBlocks(ops: List[TealComponent]) -> List[TealComponent]:
                     )
                     continue
 
-                index = sortedBytes.index(byteValue)
+                index = blockBytes.index(byteValue)
                 if index == 0:
                     assembled.append(TealOp(op.expr, Op.bytec_0, "//", *op.args))
                 elif index == 1:
